@@ -186,6 +186,10 @@ def make_stale(rng, tier):
                 if rng.random() < 0.2:
                     ops.append({'k': 'restart', 'proc': base['p']})        # the language server is restarted
                     ops.append(dict(base, t=[]))
+                if rng.random() < 0.12:
+                    # the user clears the cache in the middle of the session; the server goes on
+                    ops.append({'k': 'clearcache', 'p': base['p'], 'c': base['c'] if base['c'] >= 0 else 0,
+                                'mem': True, 'api': rng.random() < 0.7, 't': []})
                 ops.extend(_edit_ops(rng, cfg, state, f=base['f']))
             ops.append(dict(base, t=[]))
         elif r < 0.5:
